@@ -12,7 +12,7 @@ Record case := mkCase { c_op : op16; c_dense : list Z; c_rows : list (list nat) 
 
 Definition check (c : case) : bool :=
   match c_op c with
-  | OMask w nss => list_cmp cmpZ (dense_of (eval_l (K:=ZO) (weight_mask_net w nss)) nss) (c_dense c)
+  | OMask w nss => list_cmp cmpZ (dense_of (eval_l (K:=ZO) (weight_mask_u w nss)) nss) (c_dense c)
   | OWeight nss => list_cmp cmpZ (dense_of (eval_l (K:=ZO) (weight_net nss)) nss) (c_dense c)
   | OOneHot r nss =>
       (* the last bond is left open: entry (x, k) = k-th component of the propagated row vector *)
